@@ -549,6 +549,8 @@ def r11_11(ctx):
 
 
 def run(ctx):
+    ctx.rule("R11.14", "futf::classify answers a code point for a continuation byte only if the sequence found by looking back contains that byte")
+    ctx.guard("R11.14", "lookback", lambda: r11_14(ctx))
     ctx.rule("R11.12", "WTF8's boundary validators accept the empty slice; ASCII accepts exactly U+0000..=U+007F in both validate and encode_char")
     ctx.guard("R11.12", "wtf8-boundary", lambda: wtf8_boundary_validators(ctx, "R11.12"))
     ctx.guard("R11.12", "ascii", lambda: ascii_bound(ctx, "R11.12"))
@@ -602,3 +604,32 @@ def run(ctx):
         ctx.rule("R11.3w", "compile-fail witnesses with compiling twins (rustdoc, nightly, error codes checked)")
         ctx.guard("R11.3w", "witness", witnesses)
 
+
+
+def r11_14(ctx):
+    """futf::classify, looking back from a continuation byte: when it finds the start byte of an n-byte sequence `checked` bytes
+    before idx, it may describe that sequence as the code point containing idx only if checked < n.  With checked >= n the
+    sequence ends before idx - the byte at idx continues nothing and the answer is None.  (WTF8::validate walks the buffer with
+    classify and advances by the answered sequence's length: a stray continuation byte answered with the PREVIOUS sequence
+    lets `C5 91 91` pass as WTF-8.)"""
+    cur = nf_common.area_current(ctx, "tendril_decode")
+    ks = [k for k in cur if k.endswith("futf::classify")]
+    if len(ks) != 1 or cur[ks[0]]["kind"] != "paths":
+        raise AnchorMissing("futf::classify has no path normal form")
+    bad = None
+    n = 0
+    for pc in cur[ks[0]]["cells"]:
+        g = pc["guards"]
+        lookback_start = [k for k, v in g.items() if v is True and re.search(r"classify\(p1\.get_unchecked\(\(φ\(p2\) - 1\)\)\)\.0 matches Start\(_\)", k)]
+        if not lookback_start or not str(pc["ret"]).startswith("Some(Codepoint("):
+            continue
+        if "Prefix(" in str(pc["ret"]):
+            continue  # the sequence runs past the end of the buffer: it contains idx by construction (avail > checked)
+        n += 1
+        inside = [v for k, v in g.items() if re.fullmatch(r"\(\(φ\(0\) \+ 1\) < classify\(p1\.get_unchecked\(\(φ\(p2\) - 1\)\)\)\.0\.0\)(#\d+)?", k)]
+        if inside and len(set(inside)) > 1:
+            continue  # the same comparison of unchanged values answered both ways: infeasible
+        if not inside or not all(inside):
+            bad = "a sequence found %s is answered as the code point containing idx although it ends before idx (checked >= n): a stray continuation byte after a complete sequence is accepted" % (
+                "without comparing the distance with its length" if not inside else "with checked >= n")
+    ctx.ob("R11.14", "futf-lookback-sequence-contains-idx", bad is None and n >= 1, bad or "%d look-back answers, each with checked < n" % n, "tendril futf::classify")
